@@ -146,6 +146,29 @@ def matrix_inputs(rng, tier):
     return inputs, bad
 
 
+def entry_clause(g, a, names):
+    """the property's clause evaluated on an accepted matrix: an edge i->j exactly for a[i][j]=1, a[j][i]=0 and i--j exactly for
+    both entries 1 (the diagonal is ignored, O5); None if it holds"""
+    n = len(a)
+    if names is None:
+        names = [f'node_{i}' for i in range(n)]
+    if len(names) != n or len(set(names)) != n or any(len(r) != n for r in a):
+        return None
+    want = set()
+    for i in range(n):
+        for j in range(n):
+            if i != j and a[i][j]:
+                want.add((names[i], names[j], '->') if not a[j][i] else (min(names[i], names[j]), max(names[i], names[j]), '--'))
+    got = set()
+    for e in g.get_edges():
+        s, d = e.get_edge_pair()
+        t = str(e.get_edge_type())
+        got.add((s, d, t) if t == '->' else (min(s, d), max(s, d), t))
+    if got != want:
+        return f'edges {sorted(got)} but the matrix entries say {sorted(want)}'
+    return None
+
+
 def from_matrix_cases(rng, tier):
     inputs, bad = matrix_inputs(rng, tier)
     cases = []
@@ -170,16 +193,20 @@ def from_matrix_cases(rng, tier):
                 names[1] = names[0]            # duplicate
         validate = rng.random() < 0.7
         try:
+            dt = None
             arr = numpy.array(a) if a else numpy.zeros((0, 0), dtype=int)
             if a and arr.ndim == 2 and arr.dtype != object and ((arr == 0) | (arr == 1)).all() and rng.random() < 0.4:
                 # a binary matrix is a binary matrix whatever its numpy dtype (unsigned, boolean, float ...)
-                arr = arr.astype(rng.choice([numpy.uint8, numpy.bool_, numpy.float64, numpy.int8, numpy.uint64, numpy.float32]))
+                dt = rng.choice(['uint8', 'bool', 'float64', 'int8', 'uint64', 'float32'])
+                arr = arr.astype(dt)
             g = cls.from_adjacency_matrix(arr, None if names is None else list(names), validate=validate)
             pool = (g.get_node_names() + ['zz'])[:6]
             code, h = 0, C.hash_tokens(H.observe(g, kind, pool, [], []))
         except Exception as e:  # noqa: BLE001
             code, h, pool = C.err_code(e), 0, []
-        cases.append(dict(kind=kind, matrix=a, names=names, validate=validate, pool=pool, code=code, hash=h))
+            g = None
+        cases.append(dict(kind=kind, matrix=a, names=names, validate=validate, pool=pool, code=code, hash=h, dtype=dt,
+                          entry_clause=entry_clause(g, a, names) if g is not None else None))
     return cases
 
 
@@ -423,6 +450,10 @@ def check(run, tier, seed):
     run.samples.append(dict(matrix=fcases[40]['matrix'], names=fcases[40]['names'], outcome=C.ERR_NAME.get(fcases[40]['code'], 'ok')))
     run.oblige(f'correspondence: matrix / networkx / GML views on {len(cases)} graph states', not div,
                '' if not div else f'first divergence: {cases[div[0]]["kind"]} {cases[div[0]]["ops"]!r}'[:480])
+    for c in fcases:
+        if c.get('entry_clause') and len(run.violations) < 2:
+            why = f'from_adjacency_matrix(dtype={c["dtype"] or "int64"}): {c["entry_clause"]}'
+            run.violation(dict(kind=c['kind'], matrix=c['matrix'], names=c['names'], dtype=c['dtype'], validate=c['validate'], why=why), note=why[:200])
     run.oblige(f'correspondence: from_adjacency_matrix on {len(fcases)} matrices', not fbad,
                '' if not fbad else f'first divergence: {({k: v for k, v in fcases[fbad[0]].items() if k != "hash"})!r}'[:480])
     viol = 0
